@@ -15,25 +15,39 @@ def load_lemmas():
 def report(ctx, eng, rule="PANIC", only_funcs=None, entry=None):
     """Every obligation the engine enumerated becomes a report obligation; open ones are violations
     unless listed (by exact key) as an assumed lemma."""
+    return report_obs(ctx, export(eng), sorted(eng.analysed), rule, only_funcs, entry)
+
+
+def export(eng):
+    """Picklable form of the engine's obligations."""
+    out = []
+    for key, ob in sorted(eng.obligations.items()):
+        out.append({"key": key, "kind": ob.kind, "func": ob.func, "file": ob.file, "line": ob.line, "status": ob.status, "reason": ob.reason, "need": ob.need,
+                    "facts": list(ob.facts or []), "chain": list(ob.chain or []), "desc": ob.desc})
+    return out
+
+
+def report_obs(ctx, obs, analysed, rule="PANIC", only_funcs=None, entry=None):
     R = ctx.report
     lemmas = load_lemmas()
     n = 0
-    for key, ob in sorted(eng.obligations.items()):
-        if only_funcs is not None and ob.func not in only_funcs:
+    for ob in obs:
+        key = ob["key"]
+        if only_funcs is not None and ob["func"] not in only_funcs:
             continue
         n += 1
         full = "%s|%s|%s" % (ctx.prop, rule, key)
         R.instance(rule, key)
-        if ob.status == "discharged":
-            R.obligation(rule, key, "discharged", ob.reason, nontrivial=not ob.reason.startswith("condition constant"))
+        if ob["status"] == "discharged":
+            R.obligation(rule, key, "discharged", ob["reason"], nontrivial=not ob["reason"].startswith("condition constant"))
         elif full in lemmas:
             R.obligation(rule, key, "assumed-lemma", lemmas[full]["reason"])
             R.notes.append("assumed lemma: %s — %s" % (full, lemmas[full]["reason"]))
         else:
-            R.obligation(rule, key, "open", ob.need)
-            R.violation(rule, key, "panic-capable site not discharged: %s %s needs `%s`%s" % (ob.kind, ob.desc, ob.need, (" (" + ob.reason + ")") if ob.reason else ""),
-                        file=ob.file, line=ob.line, function=ob.func, entry_point=entry, call_chain=ob.chain, known_facts=ob.facts, needed=ob.need)
-    for f in eng.analysed:
+            R.obligation(rule, key, "open", ob["need"])
+            R.violation(rule, key, "panic-capable site not discharged: %s %s needs `%s`%s" % (ob["kind"], ob["desc"], ob["need"], (" (" + ob["reason"] + ")") if ob["reason"] else ""),
+                        file=ob["file"], line=ob["line"], function=ob["func"], entry_point=entry, call_chain=ob["chain"], known_facts=ob["facts"], needed=ob["need"])
+    for f in analysed:
         R.fn(f)
     return n
 
